@@ -24,7 +24,7 @@ RULE = ("case = (sampler configuration, f output kind {scalar, vector, tuple}, w
         "products are enumerated: block A = all sampler configurations x f output x orders with explicit parameters; "
         "block B = a fixed set of sampler configurations x the complete parameter-placement lattice x orders "
         "(thorough: larger sets in B).  distinct = distinct observation hashes")
-RULE_ADDED = 'Added later: parameters shared between f and log p, mh drift plane, step functions returning a reused buffer, integer-valued (int64) chain state, call-order plane in fresh interpreters. Round 4: integrands returning the sample itself (fout ident) or a tensor the caller holds (constant integrand; must stay untouched). Round 5: bck_options carrying the keywords of the sampler (nsamples, nburnout, step_size, lb, ub) with other values than the forward options - everything judged as without them. Round 6: objective sq0 (zero cotangent, second-order content); mh on densities with bounded support (log p NaN / -inf outside).'
+RULE_ADDED = 'Added later: parameters shared between f and log p, mh drift plane, step functions returning a reused buffer, integer-valued (int64) chain state, call-order plane in fresh interpreters. Round 4: integrands returning the sample itself (fout ident) or a tensor the caller holds (constant integrand; must stay untouched). Round 5: bck_options carrying the keywords of the sampler (nsamples, nburnout, step_size, lb, ub) with other values than the forward options - everything judged as without them. Round 6: objective sq0 (zero cotangent, second-order content); mh on densities with bounded support (log p NaN / -inf outside). Round 7: mh on states of several components (shapes (3,), (2, 2), (1, 4)): increments of the collected states span the state space.'
 ASSUMPTIONS = [
     "an evaluation of f that carries zero weight in the result and happens at x0 is the documented shape probe",
     "mhcustom: the sample sequence must be a contiguous run of nsamples chain states starting at index nburnout-1, "
@@ -116,6 +116,14 @@ def cases(tier, seed):
         for step in (1.0, 0.5):
             for ms in (0, 1, 2):
                 add({"sampler": "mh_drift", "nsamples": ns, "nburnout": nb, "step": step, "mseed": ms})
+    # block D'': mh on a state of several components (shapes (3,), (2, 2), (1, 4)): the random-walk proposals move the
+    # components independently, so the increments of the collected samples span the whole state space
+    for shape in ("3", "2x2", "1x4"):
+        for (ns, nb) in ((40, 5), (25, 0)):
+            for step in (0.7, 0.3):
+                for ms in (0, 1, 2):
+                    add({"sampler": "mh_multi", "shape": shape, "nsamples": ns, "nburnout": nb, "step": step,
+                         "mseed": ms})
     # block D': densities with bounded support (log p NaN / -inf outside), chain started near the boundary
     for (ns, nb) in ((40, 10), (200, 0), (12, 60)):
         for step in (1.0, 0.5):
@@ -313,6 +321,50 @@ def _run_mh_drift(cfg):
     return {"viol": viol, "obs": obs, "status": "violation" if viol else "ok", "n": 1}
 
 
+def _run_mh_multi(cfg):
+    """standard normal density on a state of several components.  Deterministic necessary condition for a chain that
+    can reach the whole space: once at least d + 2 distinct states were collected, their increments have rank d (a
+    Gaussian random-walk proposal that moves every component produces rank-deficient increments with probability
+    zero); the value is the mean of f over the collected samples and has the shape of the state."""
+    from xitorch.integrate import mcquad
+    ns, nb, step = cfg["nsamples"], cfg["nburnout"], cfg["step"]
+    shape = tuple(int(t) for t in cfg["shape"].split("x"))
+    flog = []
+
+    def logp(x):
+        return -0.5 * (x * x).sum()
+
+    def f(x):
+        flog.append(x.detach().clone())
+        return x.clone()
+    x0 = torch.zeros(shape, dtype=torch.float64)
+    torch.manual_seed(5100 + cfg["mseed"])
+    o = call(mcquad, f, logp, x0, fparams=(), pparams=(), method="mh", nsamples=ns, nburnout=nb, step_size=step)
+    if o.exc is not None:
+        return {"viol": [V("exception:" + _sig(o.exc), {"phase": "forward"}, phase="forward")],
+                "obs": {"exc": _sig(o.exc)}, "status": "exception", "n": 1}
+    viol = []
+    samples = flog[-ns:]
+    d = int(x0.numel())
+    if len(samples) != ns or any(tuple(t.shape) != shape for t in samples):
+        viol.append(V("mh-evaluation-counts", {"f_calls": len(flog), "nsamples": ns,
+                                               "shapes": sorted({str(tuple(t.shape)) for t in flog})}))
+        return {"viol": viol, "obs": {"f_calls": len(flog)}, "status": "violation", "n": 1}
+    S = torch.stack([t.reshape(-1) for t in samples])
+    distinct = len({tuple(r.tolist()) for r in S})
+    sv = torch.linalg.svdvals(S - S[0])
+    rank = int((sv > 1e-9 * max(float(sv[0]), 1e-300)).sum())
+    obs = {"distinct": distinct, "rank": rank, "d": d}
+    if distinct >= d + 2 and rank < d:
+        viol.append(V("mh-chain-confined-to-a-subspace", {"rank_of_increments": rank, "dimension": d,
+                                                           "distinct_states": distinct}))
+    val = o.value.detach()
+    ref = S.mean(dim=0).reshape(shape)
+    if tuple(val.shape) != shape or float((val - ref).abs().max()) > 1e-12:
+        viol.append(V("value-is-not-the-weighted-sample-mean", {"shape": list(val.shape), "mh_multi": True}))
+    return {"viol": viol, "obs": obs, "status": "violation" if viol else "ok", "n": 1, "trivial": distinct < d + 2}
+
+
 def _run_mh_support(cfg):
     """a density with bounded support whose logarithm is NaN (not -inf) outside it: Gamma(3, 1) written as
     2 log x - x.  A proposal outside the support has no acceptance probability (NaN): it must not become a state
@@ -360,6 +412,8 @@ def run_case(cfg):
         return _run_mh_support(cfg)
     if cfg["sampler"] == "mh_drift":
         return _run_mh_drift(cfg)
+    if cfg["sampler"] == "mh_multi":
+        return _run_mh_multi(cfg)
     sampler = cfg["sampler"]
     ns = cfg["nsamples"]
     nbo = cfg.get("nburnout", 0)
